@@ -60,7 +60,7 @@ TOL_C = 3e-8            # stored C against my own rotated tensor, relative to ma
 TOL_K = 3e-8            # energy tensor against the angular integral (K is zeroed below 1e-8 of its maximum)
 TOL_COV = 1e-9          # covariance, relative, multiplied by (1 + 1/gap); + 6e-8 cond when an entry lies in the floor band
 GAP_REFUSAL = 0.1       # a refusal (Stroh self-checks) is legitimate only for roots closer than this
-B_LIMIT = 40.0          # isotropic limit: |field(t) - closed form| <= B_LIMIT * t * scale   (perturbation t * lambda_min)
+B_LIMIT = 100.0         # isotropic limit: |field(t) - closed form| <= B_LIMIT * t * scale   (perturbation t * lambda_min)
 
 _CAL = os.environ.get('VERIF_C12_CAL')
 
@@ -217,6 +217,12 @@ def field(sol, name, pos, aslist=False):
     if pos.ndim == 2 and pos.shape[0] == 1 and out.shape == tail:
         out = out.reshape((1,) + tail)                      # "single-value solutions are reduced"
     require(out.shape == pos.shape[:-1] + tail, lambda: '%s(%r-shaped positions) has shape %r' % (name, pos.shape, out.shape))
+    if out.dtype.kind == 'c':
+        # Stroh returns the complex sum unless every imaginary part is below an absolute 1e-8 (numpy.real_if_close with
+        # tol <= 1): rounding residue on a large field value is not a defect of the field, a real imaginary part is
+        require(float(np.abs(out.imag).max()) <= 1e-9 * float(np.abs(out.real).max()),
+                lambda: '%s has a genuine imaginary part at %r: %r' % (name, pos.tolist(), out))
+        out = out.real
     require(out.dtype.kind == 'f', lambda: '%s returned dtype %s (not real): %r' % (name, out.dtype, out))
     require(bool(np.all(np.isfinite(out))), lambda: '%s not finite at %r: %r' % (name, pos.tolist(), out))
     return out
@@ -509,18 +515,19 @@ def oracle_covariance(case):
 
     def compare(other, R, what, band):
         tol = TOL_COV * S.amp + (6e-8 * cond if band else 0.0)
+        sfx = '_band' if band else ''
         PR = P @ R.T
         u = field(other, 'displacement', PR)
         # the displacement is defined up to the constant the branch of the logarithm fixes; it is covariant too
-        close(np.abs(u - base['displacement'] @ R.T).max(), tol * 10 * S.bn, 'cov_u', lambda: '%s: displacement is not R u(R^t x)' % what)
+        close(np.abs(u - base['displacement'] @ R.T).max(), tol * 10 * S.bn, 'cov_u' + sfx, lambda: '%s: displacement is not R u(R^t x)' % what)
         for nm in ('strain', 'stress'):
             f = field(other, nm, PR)
             exp = np.einsum('ia,nab,jb->nij', R, base[nm], R)
-            close(np.abs(f - exp).max(), tol * float(np.abs(exp).max()), 'cov_' + nm, lambda: '%s: %s is not R %s R^t' % (what, nm, nm))
+            close(np.abs(f - exp).max(), tol * float(np.abs(exp).max()), 'cov_' + nm + sfx, lambda: '%s: %s is not R %s R^t' % (what, nm, nm))
         K2 = np.asarray(other.K_tensor, dtype=float)
-        close(np.abs(K2 - R @ K @ R.T).max(), (3e-8 + tol) * float(np.abs(K).max()), 'cov_K', lambda: '%s: K_tensor is not R K R^t' % what)
-        close(abs(float(other.K_coeff) - float(sol.K_coeff)), (3e-8 + tol) * float(np.abs(K).max()), 'cov_Kc', lambda: '%s: K_coeff changed' % what)
-        close(abs(float(other.preln) - float(sol.preln)), (3e-8 + tol) * float(np.abs(K).max()) * S.bn ** 2, 'cov_pre', lambda: '%s: preln changed' % what)
+        close(np.abs(K2 - R @ K @ R.T).max(), (1.5e-7 + tol) * float(np.abs(K).max()), 'cov_K' + sfx, lambda: '%s: K_tensor is not R K R^t' % what)
+        close(abs(float(other.K_coeff) - float(sol.K_coeff)), (1.5e-7 + tol) * float(np.abs(K).max()), 'cov_Kc', lambda: '%s: K_coeff changed' % what)
+        close(abs(float(other.preln) - float(sol.preln)), (1.5e-7 + tol) * float(np.abs(K).max()) * S.bn ** 2, 'cov_pre', lambda: '%s: preln changed' % what)
 
     # (a) rotate the crystal by Q and the laboratory by R:  C' = Q.C, b' = Q b, transform' = R T Q^t, m' = R m, n' = R n
     Q, R = el.rotation_matrix(*case['Q']), el.rotation_matrix(*case['R'])
@@ -534,7 +541,12 @@ def oracle_covariance(case):
     if other is None:
         labels.add('rotated_refused')
     else:
-        band = _floor_band(C6q) or _floor_band(S.C6s) or _floor_band(S.C6)
+        # entries between rounding noise and 1e-7 of the largest may be zeroed (tol = 1e-8) in one problem and kept in the
+        # other: crystal tensor, rotated crystal tensor, and both solution-frame tensors
+        band = _floor_band(C6q) or _floor_band(S.C6s) or _floor_band(S.C6) or _floor_band(el.rotate_voigt(S.C6s, R))
+        # the same for Burgers-vector components below 1e-8 of the largest (fields are linear in b; a component's field
+        # can exceed the main one's by the anisotropy of K, hence the same cond-scaled allowance)
+        band = band or _floor_band(S.b) or _floor_band(R @ S.b)
         compare(other, R, 'crystal rotated by Q, laboratory by R', band)
         labels.add('rotated')
         if el.rotation_angle_deg(R) > 5 and el.rotation_angle_deg(Q) > 5:
@@ -546,7 +558,7 @@ def oracle_covariance(case):
         kw2['transform'] = S.T
         other = call_solver(solver, S.C6, S.b_cart, kw2, S.iso)
         require(other is not None, 'the problem is accepted with Miller indices but refused with the corresponding transform')
-        compare(other, np.eye(3), 'Miller indices replaced by the corresponding transform', _floor_band(S.C6s))
+        compare(other, np.eye(3), 'Miller indices replaced by the corresponding transform', _floor_band(S.C6s) or _floor_band(S.b))
         labels.add('miller_vs_transform')
     return labels
 
@@ -628,15 +640,35 @@ def oracle_iso_limit(case):
     return labels
 
 
+_ACC = {'accepted': 0.85}
+_REF = {'refusal': 0.12}
+
 CLAUSES = [
-    Clause('jump', oracle_jump, jump_cases, quick=3000, thorough=60000,
-           desc='Burgers vector = displacement jump across the cut half-plane (limit at +-1e-9 r), continuity across every other ray, invariance along the line, character angle, header (m, n, xi, transform, burgers, C)'),
-    Clause('kinematics', oracle_kinematics, kin_cases, quick=3000, thorough=60000,
-           desc='strain = sym grad u and div stress = 0 by 4th-order central differences (h = 1e-4 r), stress = C:strain, symmetry, homogeneity of degree -1'),
-    Clause('energy', oracle_energy, energy_cases, quick=2000, thorough=40000,
-           desc='K_tensor real symmetric positive definite, equal to the Barnett-Lothe angular integral (and to the closed form for isotropic media); K_coeff, preln; slip-plane traction = K.b/(2 pi x)'),
-    Clause('covariance', oracle_covariance, cov_cases, quick=1500, thorough=30000,
-           desc='rotating crystal (C, b) by Q and laboratory (transform, m, n, points) by R rotates u, strain, stress, K; Miller-index orientation = the corresponding transform'),
-    Clause('iso_limit', oracle_iso_limit, limit_cases, quick=1000, thorough=20000,
-           desc='isotropic class and dispatcher against Hirth-Lothe closed forms; Stroh on C_iso + t D approaches them linearly (t = 1e-2, 1e-3)'),
+    Clause('jump', oracle_jump, jump_cases, quick=6000, thorough=90000,
+           min_share=dict(_ACC, nt=0.15, solver_stroh=0.25, solver_iso=0.1, solver_auto=0.1, orient_miller=0.15, mn_vec=0.25,
+                          mn_str=0.1, ray_on_axis=0.25, b_tiny_component=0.02, int_positions=0.05, ptlist=0.2,
+                          four_index=0.03, via_axes=0.08),
+           max_share=_REF,
+           desc='Burgers vector = displacement jump across the cut half-plane (limit at +-1e-9 r), continuity across every '
+                'other ray, invariance along the line, single point = array row = integer-typed positions, character angle, '
+                'header (m, n, xi, transform, burgers, C) against my own numbers'),
+    Clause('kinematics', oracle_kinematics, kin_cases, quick=8000, thorough=120000,
+           min_share=dict(_ACC, nt=0.15, solver_stroh=0.25, solver_iso=0.1, orient_miller=0.15, pt_on_axis=0.2, ptlist=0.15,
+                          b_general=0.03, b_climb=0.02),
+           max_share=_REF,
+           desc='strain = sym grad u and div stress = 0 by 4th-order central differences (h = 1e-4 r), stress = C:strain, '
+                'symmetry, homogeneity of degree -1'),
+    Clause('energy', oracle_energy, energy_cases, quick=5000, thorough=75000,
+           min_share=dict(_ACC, nt=0.12, BL=0.8, solver_stroh=0.25, iso_medium=0.2, mn_vec=0.25), max_share=_REF,
+           desc='K_tensor real symmetric positive definite, equal to the Barnett-Lothe angular integral (and to the closed '
+                'form for isotropic media); K_coeff, preln; slip-plane traction = K.b/(2 pi x)'),
+    Clause('covariance', oracle_covariance, cov_cases, quick=4000, thorough=60000,
+           min_share=dict(_ACC, nt=0.15, rotated=0.8, both_generic=0.2, miller_vs_transform=0.15, aniso_medium=0.3),
+           max_share=_REF,
+           desc='rotating crystal (C, b) by Q and laboratory (transform, m, n, points) by R rotates u, strain, stress, K; '
+                'Miller-index orientation = the corresponding transform'),
+    Clause('iso_limit', oracle_iso_limit, limit_cases, quick=2500, thorough=37500,
+           min_share={'nt': 0.25, 'both_t': 0.6, 'mn_vec': 0.25},
+           desc='isotropic class and dispatcher against Hirth-Lothe closed forms; Stroh on C_iso + t D approaches them '
+                'linearly (t = 1e-2, 1e-3)'),
 ]
